@@ -41,8 +41,65 @@ from .values import SBool, SInt, SOpaque, SOpt, Sym, Unsupported, both, cur, eit
 def _key_kind(kshape):
     inner = kshape.inner if isinstance(kshape, S.Opt) else kshape
     if not isinstance(inner, S.Opaque):
-        raise Unsupported(f"finite map: key shape {kshape!r} (only Opaque(K) / Opt(Opaque(K)))")
+        raise Unsupported(f"finite map: key shape {kshape!r} (only Opaque(K) / Opt(Opaque(K)) / Int)")
     return inner
+
+
+class _IntKind:
+    """Stand-in for the Opaque kind of integer keys (`_Keys.opq`)."""
+
+    kind = "int"
+    meta: dict = {}
+
+
+class _IntKeys:
+    """Keys that are Python ints (`dict[int, ...]` indexed by loop indices, weights ...): a key is its integer value,
+    key equality is `==` of the integers (hash-equal and `==`, as for CPython ints; bools and floats are not admitted
+    as keys -- True == 1 would alias -- and raise Unsupported).  Same interface as `_Keys`.  Cross-check against
+    CPython: `xcheck_intmap` below."""
+
+    def __init__(self, kshape):
+        self.shape = kshape
+        self.opq = _IntKind
+        self.sort = z3.IntSort()
+        self.dom = [z3.IntSort()]
+
+    def norm(self, k):
+        if V._current:
+            k = cur().force(k) if isinstance(k, SOpt) else k
+        if isinstance(k, (bool, SBool)) or not isinstance(k, (int, SInt)):
+            raise Unsupported(f"finite map with int keys: key {k!r}")
+        return k
+
+    def args(self, k):
+        return [V._z(self.norm(k))]
+
+    def eq(self, a, b):
+        return V._cmp("==", self.norm(a), self.norm(b))
+
+
+def _value_shape(vshape):
+    """The shape values are generated with: lists are held BY VALUE (immutable sequence values)."""
+    if isinstance(vshape, S.ListOf) and not vshape.tuple_:
+        return S.ListOf(vshape.elem, vshape.min_len, vshape.max_len, tuple_=True, measure=vshape.measure)
+    return vshape
+
+
+def empty_map(st, name, kshape, vshape):
+    """`{}` as a map value of the given shapes.  The value function of absent keys is an unconstrained function of the
+    key (of the value shape), so that the value read under a key that IS present is always of the value shape -- a
+    conditional between a stored value and that function -- never a conditional with `None`."""
+    from .protocol import uf_shape_value
+
+    ks = make_keys(kshape)
+    base = st.fresh_name(f"{name}$absent")
+    return MapVal(ks, vshape, 0, lambda i: None, lambda k: False, lambda k: uf_shape_value(st, base, ks.args(k), _value_shape(vshape)), lambda k: -1, name=name)
+
+
+def make_keys(kshape):
+    if isinstance(kshape, (_Keys, _IntKeys)):
+        return kshape
+    return _IntKeys(kshape) if isinstance(kshape, S._Int) else _Keys(kshape)
 
 
 class _Keys:
@@ -120,13 +177,28 @@ class MapVal:
     def get(self, k, default=None):
         return _ite_any(self.has(k), self.val(k), default)
 
+    def card_range_axiom(self, lo, hi):
+        """Cardinality of a dict whose keys are exactly the integers lo .. hi-1 (int keys only): `len(d) == hi - lo`.
+        The true fact  (for all k: has(k) <=> lo <= k < hi)  =>  n == max(hi - lo, 0)  -- key() is a bijection between the
+        positions 0..n-1 and the keys, by W1 / W2 -- is asserted in Skolem form: for a FRESH constant sk,
+            (has(sk) <=> lo <= sk < hi)  =>  n == max(hi - lo, 0)
+        (sk names a key on which the two sides differ, if there is one).  Returns sk, so that the caller can instantiate
+        what it knows about every key at sk.  Cross-check against CPython: `xcheck_intmap`."""
+        if not isinstance(self.keys, _IntKeys):
+            raise Unsupported("card_range_axiom: int keys only")
+        st = cur()
+        sk = st.fresh_int(f"{self.name}$sk")
+        inr = both(V._cmp("<=", lo, sk), V._cmp("<", sk, hi))
+        st.assume(implies(V.eq(self.has(sk), inr), V._cmp("==", self.n, V.imax(hi - lo, 0))))
+        return sk
+
     # ---- constructors
     @staticmethod
     def fresh(st, hint, kshape, vshape, zidx=()):
         """A fresh symbolic map; `zidx`: z3 index terms when the map is an element of a (nested) sequence."""
         from .protocol import uf_shape_value
 
-        ks = kshape if isinstance(kshape, _Keys) else _Keys(kshape)
+        ks = make_keys(kshape)
         base = hint
         zidx = list(zidx)
         idom = [t.sort() for t in zidx]
@@ -144,7 +216,7 @@ class MapVal:
             return mk_int(idxF(*zidx, *ks.args(k)))
 
         def val(k):
-            return uf_shape_value(st, f"{base}$val", zidx + ks.args(k), vshape)
+            return uf_shape_value(st, f"{base}$val", zidx + ks.args(k), _value_shape(vshape))
 
         def key(i):
             return uf_shape_value(st, f"{base}$key", zidx + [V._z(i)], ks.shape)
@@ -154,7 +226,7 @@ class MapVal:
     @staticmethod
     def from_items(kshape, vshape, items, name="lit"):
         """The map built by inserting the (key, value) pairs of a concrete-length list in order (`dict(pairs)`)."""
-        ks = kshape if isinstance(kshape, _Keys) else _Keys(kshape)
+        ks = make_keys(kshape)
         m = MapVal(ks, vshape, 0, lambda i: None, lambda k: False, lambda k: None, lambda k: -1, name=name)
         for k, v in items:
             m = m.set(k, v)
@@ -291,14 +363,105 @@ def _ite_maps(ce, a, b):
     return SFMap(m, frozen=True)
 
 
+class MapListRef(LRef):
+    """The list object stored under key `key` of a dict model whose values are lists (`d.setdefault(k, []).append(x)`,
+    `d[k].append(x)`, `for x in d[k]`): a reference whose content IS the map's current value at that key -- reading
+    `.seq` reads the map, assigning `.seq` (every list mutation of pyvc.builtins_model does) stores the new content
+    under the key.  Sound as long as the dict keeps holding that list object under that key: a later rebinding or
+    deletion of the key through the dict (`d[k] = other`, `del d[k]`, `d.pop(k)`) invalidates every outstanding
+    reference (`SFMap._rebind`), whose use is then Unsupported."""
+
+    def __init__(self, fmap, key):
+        self.__dict__["fmap"] = fmap
+        self.__dict__["key"] = key
+        self.__dict__["epoch"] = fmap.epoch
+        LRef.serial_counter += 1
+        self.__dict__["serial"] = LRef.serial_counter
+
+    def _check(self):
+        if self.fmap.epoch != self.epoch:
+            raise Unsupported("use of a list taken from a dict model after the dict rebound / deleted a key (aliasing is not modelled)")
+
+    @property
+    def seq(self):
+        self._check()
+        return self.fmap.v.val(self.key)
+
+    @seq.setter
+    def seq(self, new):
+        self._check()
+        self.fmap._mut()
+        self.fmap.v = self.fmap.v.set(self.key, new)
+
+    def snapshot(self):
+        return LRef(self.seq)
+
+
+class _StoredSeq:
+    """`seq` of a list object after it was stored BY VALUE into a dict model: reading it is fine (its content at that
+    moment), mutating it would need alias tracking -> Unsupported (as seqs._MovedSeq for rows of nested lists)."""
+
+
+def _poison(lref):
+    """The list object `lref` was stored by value into a dict model: further mutation through this reference is
+    Unsupported (the dict would not see it)."""
+    content = lref.seq
+
+    class _Stored(type(lref)):
+        @property
+        def seq(self):
+            return content
+
+        @seq.setter
+        def seq(self, new):
+            raise Unsupported("mutation of a list object after it was stored in a dict model (aliasing is not modelled)")
+
+    d = dict(lref.__dict__)
+    d.pop("seq", None)
+    lref.__class__ = _Stored
+    lref.__dict__.clear()
+    lref.__dict__.update(d)
+    return content
+
+
 class SFMap(ModelObj):
-    """A dict object with symbolic keys (see the module docstring)."""
+    """A dict object with symbolic keys (see the module docstring).
+
+    Values of a Union shape (size tuples of different arity) are stored as `values.SCases`; values of a list shape
+    (`dict[int, list[int]]`) are stored BY VALUE (the list's content) and handed out as `MapListRef` references that
+    write through (the list object that was stored is poisoned: `_poison`)."""
 
     py_class = dict
 
     def __init__(self, v: MapVal, frozen=False):
         self.v = v
         self.frozen = frozen
+        self.epoch = 0
+
+    def _list_valued(self):
+        return isinstance(self.v.vshape, S.ListOf)
+
+    def _store(self, v):
+        vs = self.v.vshape
+        if isinstance(vs, S.Union) and not isinstance(v, V.SCases):
+            return V.SCases([(z3.BoolVal(True), v)])
+        if isinstance(vs, S.ListOf):
+            if isinstance(v, MapListRef):
+                return v.seq
+            if isinstance(v, LRef):
+                return _poison(v)
+            if not isinstance(v, (tuple, SSeq)):
+                raise Unsupported(f"dict model with list values: stored value {type(v).__name__}")
+        return v
+
+    def _load(self, k):
+        if self._list_valued():
+            return MapListRef(self, self.v.keys.norm(k))
+        return self.v.val(k)
+
+    def _rebind(self):
+        if self._list_valued():
+            self.epoch += 1
 
     def _mut(self):
         if self.frozen:
@@ -338,15 +501,17 @@ class SFMap(ModelObj):
 
     def py_getitem(self, ip, st, k):
         st.partial(self.v.has(k), KeyError, "key")
-        return self.v.val(k)
+        return self._load(k)
 
     def py_setitem(self, ip, st, k, v):
         self._mut()
-        self.v = self.v.set(k, v)
+        self._rebind()
+        self.v = self.v.set(k, self._store(v))
 
     def py_delitem(self, ip, st, k):
         self._mut()
         st.partial(self.v.has(k), KeyError, "key")
+        self._rebind()
         self.v = self.v.delete(k)
 
     def py_iter(self, ip, st):
@@ -371,10 +536,14 @@ class SFMap(ModelObj):
 
     def values_seq(self):
         m = self.v
-        return SSeq(m.n, lambda i: m.val(m.key(i)), m.vshape, None, "values")
+        r = SSeq(m.n, lambda i: m.val(m.key(i)), m.vshape, None, "values")
+        r.map_src = m  # provenance, as for keys() / items()
+        return r
 
     def py_call(self, ip, st, name, args, kwargs):
         m = self.v
+        if self._list_valued() and name in ("get", "items", "values", "update", "pop", "copy"):
+            raise Unsupported(f"dict method {name} on a dict model with list values")
         if name == "get" and 1 <= len(args) <= 2 and not kwargs:
             return m.get(args[0], args[1] if len(args) > 1 else None)
         if name == "__contains__" and len(args) == 1:
@@ -399,9 +568,9 @@ class SFMap(ModelObj):
             k = m.keys.norm(args[0])
             d = args[1] if len(args) > 1 else None
             if st.branch(m.has(k)):
-                return m.val(k)
-            self.v = m.set(k, d)
-            return d
+                return self._load(k)
+            self.v = m.set(k, self._store(d))
+            return self._load(k) if self._list_valued() else d
         if name == "pop" and 1 <= len(args) <= 2:
             self._mut()
             k = m.keys.norm(args[0])
@@ -453,7 +622,7 @@ class MapOf(S.Shape):
 
     def __init__(self, key, val):
         self.key, self.val = key, val
-        self.keys = _Keys(key)
+        self.keys = make_keys(key)
 
     def fresh(self, st, hint):
         return SFMap(MapVal.fresh(st, st.fresh_name(hint), self.keys, self.val))
@@ -581,3 +750,61 @@ def _xcheck_round(st, rnd, universe, ks, kshape, bad):
                         m = m.update_pairs(seq, hints=[(lambda x, j=j: j) for j in range(len(pairs))])
                         ordered = False
                 compare(op, m, d, ordered)
+
+
+def xcheck_intmap(rounds=60, seed=5):
+    """Concrete cross-check of the int-keyed dict model against CPython: random histories of `d[k] = v`, `del d[k]`,
+    `d.setdefault(k, v)` over small int keys run on a real dict and on the model with CONCRETE keys (every observer then
+    evaluates to a plain value): membership, values, len, insertion order and positions must agree after every step; for a
+    dict whose keys are exactly range(lo, hi) the cardinality axiom's conclusion `len == hi - lo` is compared as well; and
+    a dict of lists `d.setdefault(k, []).append(x)` (stored by value, MapListRef) against CPython's aliasing semantics.
+    -> (label, ok, detail)"""
+    import random
+
+    from .engine import Config, Explorer, State
+
+    rnd = random.Random(seed)
+    bad = []
+    st = State(Explorer(Config()), [])
+    V._current.append(st)
+    try:
+        for _r in range(rounds):
+            d = {}
+            m = empty_map(st, "xi", S.Int, S.Int)
+            for _step in range(rnd.randrange(1, 8)):
+                op = rnd.choice(["set", "set", "del", "setdefault"])
+                k, v = rnd.randrange(-1, 5), rnd.randrange(0, 9)
+                if op == "set":
+                    d[k] = v
+                    m = m.set(k, v)
+                elif op == "del":
+                    if k not in d:
+                        if m.has(k) is not False:
+                            bad.append(("del-absent", dict(d)))
+                        continue
+                    del d[k]
+                    m = m.delete(k)
+                else:
+                    if k not in d:
+                        d[k] = v
+                        m = m.set(k, v)
+                ok = m.n == len(d) and all((m.has(x) is True) == (x in d) for x in range(-2, 6))
+                ok = ok and all(m.val(x) == d[x] and m.idx(x) == list(d).index(x) for x in d) and all(m.key(i) == x for i, x in enumerate(d))
+                if d and set(d) == set(range(min(d), max(d) + 1)):
+                    ok = ok and m.n == max(d) + 1 - min(d)  # what card_range_axiom concludes for such a dict
+                if not ok:
+                    bad.append((op, dict(d)))
+        # dict of lists
+        for _r in range(rounds // 2):
+            d = {}
+            fm = SFMap(empty_map(st, "xl", S.Int, S.ListOf(S.Int)))
+            for _step in range(rnd.randrange(1, 7)):
+                k, x = rnd.randrange(0, 3), rnd.randrange(0, 9)
+                d.setdefault(k, []).append(x)
+                r = fm.py_call(None, st, "setdefault", [k, LRef(())], {})
+                r.seq = tuple(r.seq) + (x,)  # what list.append does to a list reference (pyvc.builtins_model)
+                if not all((fm.v.has(y) is True) == (y in d) for y in range(4)) or any(tuple(fm.v.val(y)) != tuple(d[y]) for y in d) or fm.v.n != len(d):
+                    bad.append(("lists", {y: list(z) for y, z in d.items()}))
+    finally:
+        V._current.pop()
+    return "int-keyed-dict-model-agrees-with-cpython", not bad, f"{rounds} + {rounds // 2} random dict histories (int keys; lists as values), mismatches: {bad[:3]}"
